@@ -193,6 +193,8 @@ func (ix *BM25SearchIndex) Add(id uint32, text string) error {
 	if _, exists := ix.docTokens[id]; exists {
 		ix.removeInternal(id)
 	}
+	// A re-added ID is live again: drop a pending soft-delete mark
+	ix.deletedDocs.Remove(id)
 
 	normText := normalize(text)
 	tokens := tokenize(normText)
